@@ -387,9 +387,16 @@ def vp9_sibling_rule(prog, run, R="R9"):
     diff = []
     n = 0
     try:
-        for tail in ([0x00, 0x00, 0x10, 0x10, 0x00, 0x00, 0x00, 0x00], [0x00, 0x00, 0x85, 0x01, 0x10, 0x0C, 0x20, 0x20, 0x13, 0x01]):
+        shapes = [([0x49, 0x83, 0x42, None] + t, 3) for t in ([0x00, 0x00, 0x10, 0x10, 0x00, 0x00, 0x00, 0x00], [0x00, 0x00, 0x85, 0x01, 0x10, 0x0C, 0x20, 0x20, 0x13, 0x01])]
+        # the frame marker bytes: both readers must refuse the same frames
+        for pos in (0, 1, 2):
+            d0 = [0x49, 0x83, 0x42, 0x00, 0x00, 0x00, 0x10, 0x10, 0x00, 0x00, 0x00, 0x00]
+            d0[pos] = None
+            shapes.append((d0, pos))
+        for tmpl, pos in shapes:
             for b3 in range(256):
-                data = [0x49, 0x83, 0x42, b3] + tail
+                data = list(tmpl)
+                data[pos] = b3
                 res = []
                 for f in (kf[0], ex[0]):
                     m = E.Machine(u)
@@ -401,13 +408,13 @@ def vp9_sibling_rule(prog, run, R="R9"):
                     raise E.Unsupported("extract_vp9_config result outside the model: %r" % (res[1],))
                 a2 = res[1].variant == 1
                 if a1 != a2:
-                    diff.append((b3, a1, a2))
+                    diff.append((b3, a1, a2, pos))
     except E.Unsupported as e:
         run.bad(R, "vp9 keyframe/config agreement", "cannot tabulate the VP9 header readers (fail closed): %s" % e)
         return
     run.check(not diff, R, "vp9 keyframe/config agreement", "same acceptance on all 256 frame-header bytes (2 header shapes)",
-              "for VP9 frame-header byte 0x%02x the keyframe classifier says %s but the configuration extractor %s a configuration: a frame of that kind flagged as first keyframe is %s although it is %s" %
-              ((diff[0][0], "keyframe" if diff[0][1] else "not a keyframe", "returns" if diff[0][2] else "refuses", "accepted" if diff[0][2] else "rejected", "not a keyframe" if not diff[0][1] else "a keyframe") if diff else (0, "", "", "", "")),
+              "for VP9 frame byte %d = 0x%02x the keyframe classifier says %s but the configuration extractor %s a configuration: a frame of that kind flagged as first keyframe is %s although it is %s" %
+              ((diff[0][3], diff[0][0], "keyframe" if diff[0][1] else "not a keyframe", "returns" if diff[0][2] else "refuses", "accepted" if diff[0][2] else "rejected", "not a keyframe" if not diff[0][1] else "a keyframe") if diff else (0, 0, "", "", "", "")),
               mir.loc_of(u.bodies[ex[0]]))
     run.floor(R, n, 512, "VP9 header-byte evaluations")
 
